@@ -91,7 +91,15 @@ func RacePost(testName string) func(tier string, seed int64) ([]VRec, map[string
 		}
 		var ee []string
 		if runErr != nil && len(vs) == 0 && !strings.Contains(string(out), "race detected") {
-			ee = append(ee, "race leg failed: "+runErr.Error()+": "+trunc(string(out), 1500))
+			if strings.Contains(string(out), "test timed out") {
+				// the harness reports a session that hangs by itself (@@HANG, after 2 minutes); running into the
+				// wall-clock allowance of the whole pass without such a report means a slow (loaded) machine. The
+				// pass is a sampling leg: not finishing it is recorded, it is neither a violation nor an engine error
+				extra["race_leg_incomplete"] = 1
+				fmt.Println("NOTE the free-running -race pass did not finish within its wall-clock allowance (loaded machine?); recorded as race_leg_incomplete")
+			} else {
+				ee = append(ee, "race leg failed: "+runErr.Error()+": "+trunc(string(out), 1500))
+			}
 		}
 		return vs, extra, ee
 	}
